@@ -94,7 +94,12 @@ func (e *Engine) lockCheck(st *State, fr *Frame, l *Loc, write bool, in ssa.Inst
 	if write {
 		what = "write"
 	}
-	e.oblige(st, "lockset@"+what, "", e.ordinal(in), BoolT(held), "guarded field is accessed with its mutex held ("+what+")", in.Pos())
+	okT := BoolT(held)
+	if !held && l.Ref != nil {
+		// an object allocated by this very call (constructor initialising its own result) is not shared yet
+		okT = Ge(l.Ref, st.alloc0)
+	}
+	e.oblige(st, "lockset@"+what, "", e.ordinal(in), okT, "guarded field is accessed with its mutex held ("+what+"), or belongs to an object this call allocated", in.Pos())
 }
 
 // noteGuardedValue remembers that a map value was loaded from a guarded field.
